@@ -131,6 +131,18 @@ def r_hash(j):
     return "CHash %s %s %s" % (nat(HASH_N[j["hash"]]), b(j["data"]), b(j["out"]))
 
 
+def r_keygen_aux(j):
+    vs = "[%s]" % "; ".join("(%d, %d)" % (a, c) for a, c in j["variants"])
+    return "CKeygenAux %s %s %s %s %s %s %s" % (nat(HASH_N[j["hash"]]), vs, b(j["seed"]), b(j["aux_in"]),
+                                               rbytes(j["sk"]), rbytes(j["pk"]), b(j["aux_out"]))
+
+
+def r_sign_aux(j):
+    calls = "[%s]" % "; ".join("(%s, %s)" % (b(c[0]), "true" if c[1] else "false") for c in j["calls"])
+    return "CSignAux %s %s %s %s %s %s %s %s" % (nat(HASH_N[j["hash"]]), b(j["blob"]), b(j["msg"]), b(j["aux_in"]),
+                                                "true" if j["accept"] else "false", rbytes(j["sig"]), calls, b(j["aux_out"]))
+
+
 def r_lifetime(j):
     return "CLifetime %s %s %s" % (nat(HASH_N[j["hash"]]), b(j["blob"]), rnum(j["life"]))
 
@@ -140,6 +152,8 @@ KINDS = {
     "sign": r_sign,
     "verify": r_verify,
     "lifetime": r_lifetime,
+    "keygen_aux": r_keygen_aux,
+    "sign_aux": r_sign_aux,
     "hash": r_hash,
     "try_sign": r_try_sign,
     "ots_param": r_ots_param,
